@@ -201,6 +201,16 @@ def check_resource_limits(
         )
 
 
+def check_cores_and_threads(cores: int = 1, threads_per_core: int = 1) -> None:
+    """
+    Check that a function call requests at least one core and one thread per core.
+    """
+    if cores < 1 or threads_per_core < 1:
+        raise ValueError(
+            "The number of cores and the number of threads per core have to be at least one."
+        )
+
+
 def check_file_exists(file_name: str):
     if file_name is None:
         raise ValueError("file_name is not set.")
